@@ -62,7 +62,8 @@ var unvalidatedMembers = []struct{ def, member, classifier string }{
 
 type schemaSet struct {
 	byID  map[string]map[string]any
-	enums [][]string // every enumeration of constants found in the files
+	enums [][]string  // every enumeration of constants found in the files
+	near  nearMissCfg // near-misses computed from the constraint itself (nearmiss.go)
 }
 
 type snode struct {
@@ -382,6 +383,33 @@ func typeOf(s map[string]any) string {
 
 // stringCands: texts the member's schema refuses (as far as a pattern / enumeration tells).
 func (ss *schemaSet) stringCands(r *rand.Rand, n snode, cur any) (kind string, out []cand) {
+	kind, out = ss.spellingCands(r, n, cur)
+	// the near-misses computed from the leaf's own constraint (nearmiss.go); leaves whose `oneOf`
+	// mixes constants and a pattern, and leaves with a `format` only, are reached by these alone
+	sh, ok := shapeOf(n.s)
+	if !ok {
+		return kind, out
+	}
+	if kind == "" {
+		kind = sh.kind()
+	}
+	have := map[string]bool{}
+	for _, c := range out {
+		if v, isStr := c.val.(string); isStr {
+			have[v] = true
+		}
+	}
+	base, _ := cur.(string)
+	for _, c := range nearMisses(r, sh, base, ss.near) {
+		if v, _ := c.val.(string); !have[v] {
+			out = append(out, c)
+		}
+	}
+	return kind, out
+}
+
+// spellingCands: the spellings a reader of the schema would think of.
+func (ss *schemaSet) spellingCands(r *rand.Rand, n snode, cur any) (kind string, out []cand) {
 	if cs := constsOf(n.s); len(cs) > 0 {
 		for _, c := range ss.related(cs) {
 			out = append(out, cand{"other-enumeration:" + c, c})
@@ -563,6 +591,7 @@ func schemaSweep(c *core.Ctx, accepted []example, pl pool, seen map[string]bool,
 		return
 	}
 	perKey := c.Pick(2, 1<<30)
+	ss.near = nearMissCfg{perClass: c.Pick(3, 6), maxPos: c.Pick(3, 4), perField: c.Pick(3, 8), ix: loadRecordIndex(c.Repo)}
 	used := map[string]int{}
 	var jobs []*sweepJob
 	r := c.Rng
@@ -652,6 +681,9 @@ func schemaSweep(c *core.Ctx, accepted []example, pl pool, seen map[string]bool,
 			continue
 		}
 		c.Count("sweep:kept:"+kind, 1)
+		if os.Getenv("VERIF_C11_SWEEP_DEBUG") != "" {
+			fmt.Fprintf(os.Stderr, "KEPT %s %s\n", j.src.path, j.mutation)
+		}
 		add(Case{Source: j.src.path, Mutation: j.mutation, Input: j.input, IsEnvelope: j.src.isEnvelope}, j.out)
 	}
 }
